@@ -119,6 +119,8 @@ type inResult struct {
 	Expanded int `json:"expanded,omitempty"`
 	// Deep: depth-/size-extreme documents generated in the child from the input's recipe and handed to heimdall
 	Deep int `json:"deep,omitempty"`
+	// DeepPre: those of them whose deep part follows a string member with escapes (deepPreStrings)
+	DeepPre int `json:"deep_pre,omitempty"`
 	// PubChecks: rejected key store reloads after which the key set published on the management endpoint was still the previous one
 	PubChecks int `json:"pub_checks,omitempty"`
 	// HeldChecks: ... after which Keys() / Certificates() of the component that reloads the store were still the previous ones
